@@ -229,6 +229,37 @@ CHECK_DEADLOCK FALSE
 """, quick={"MaxSnaps": 5}, thorough={"MaxSnaps": 7}, timeout=6000)
 
 
+def gossip_tv_stage(ctx):
+    """real gossip agents over loopback memberlist -> Trace_Gossip.tla"""
+    ctx.drv_par = 4
+    trace_files_stage(ctx, "gossip", "gossip", ctx.pick(3, 8), module="Trace_Gossip", cfg=SIMPLE_TRACE_CFG)
+    ctx.drv_par = None
+
+
+def gossiptopo_tv_stage(ctx):
+    """concurrent Update/Delete/Get/Each on the real Topology -> Trace_Gossip.tla"""
+    ctx.drv_par = 2
+    trace_files_stage(ctx, "gossiptopo", "gossiptopo", ctx.pick(2, 4), module="Trace_Gossip", cfg=SIMPLE_TRACE_CFG)
+    ctx.drv_par = None
+
+
+mc_gossip = mc_stage("MC_Gossip", """SPECIFICATION Spec
+CONSTANTS
+  Agents = {@Agents@}
+  RoleOf <- MCRoleOf
+  Batches = {"b1"}
+  TTL0s <- @TTL0s@
+  MaxDup = @MaxDup@
+  SendChecksZeroOnly = FALSE
+INVARIANT NeverSelf
+INVARIANT NeverExhausted
+INVARIANT OncePerAgent
+INVARIANT Bounded
+CHECK_DEADLOCK FALSE
+""", quick={"Agents": '"a1", "m1", "p1"', "TTL0s": "TTLsA", "MaxDup": 1},
+    thorough={"Agents": '"a1", "a2", "m1", "p1"', "TTL0s": "TTLsB", "MaxDup": 1}, timeout=6000)
+
+
 def adversary_tv_stage(ctx):
     """Altered / recombined / forged answers -> real JSON decoder + real verifier -> Trace_Balloon.tla"""
     trace_files_stage(ctx, "adversary", "adv", ctx.pick(8, 16))
@@ -406,6 +437,12 @@ PLANS = {
                 "batchers, batch size 1-5, real ed25519) with seeded arrival patterns (bursts at k*BatchSize+-1, singles, gaps around the flush "
                 "interval, trickles); every produced snapshot and published batch validated; sampled signed snapshots are modified in every field "
                 "and in each of the 512 signature bits and re-verified; distinct = (batch composition)"),
+    "C18": plan("model_checking", [mc_gossip, gossip_tv_stage, gossiptopo_tv_stage],
+                "MC: Gossip.tla (agents with roles, in-flight messages with ttl, per-agent processed cache, duplication by the network): NeverSelf, "
+                "NeverExhausted, OncePerAgent, Bounded over all interleavings, initial TTLs incl. 0 and negative. TV 1: 5 real agents (memberlist over "
+                "loopback, real BatchProcessor, recording task manager and In-bus subscribers); batches injected with TTL in {5,4,3,2,1,0,-1,-3}, re-published "
+                "and re-delivered in storms; TV 2: 8 goroutines hammering the real Topology with joins/leaves and routing decisions (Each/Get) for seconds; "
+                "distinct = (agent, batch, ttl) receptions"),
     "C20": plan("model_checking", [mc_clienttopo, clienttopo_tv_stage, clientcalls_tv_stage],
                 "MC: ClientTopology.tla over urls {a,b,c}: every update (any primary incl. none, any list of <= 3 secondaries), every dead/alive mark, every "
                 "selection with each of the 5 read preferences, revive on/off, all operation sequences up to MaxOps (Safe + Fair), exhaustive. TV 1: seeded "
